@@ -67,7 +67,9 @@ def _max_contract(mk, counter):
     def mx(x, dim=None, keepdim=False, **k):
         if isinstance(x, ST):
             if dim is None:
-                raise Undecided("global max on symbolic data")
+                # global maximum: contract "some positive value" (a fresh symbol; over-approximates, sound for the claims made)
+                counter[0] += 1
+                return mk.real("scaler%d" % counter[0], (), lo=0)
             import numpy as np
             shp = list(x.shape)
             d = dim % len(shp)
@@ -524,6 +526,84 @@ def ob_switch(use_tip_states, which):
     return Ob("C03.switch.%s[tip_states=%s]" % (which, use_tip_states), "B", body, clause="finite whenever the true value is finite (real underflow, bounded)", funcs=FUNCS, timeout=900)
 
 
+def _shaped_model(shape, T, columns, bl, rescale, use_tip_states=False):
+    """JC69 model on a caterpillar or balanced tree of T taxa; columns: list of functions i -> symbol; bl: branch length (all branches)"""
+    from torchtree.core.parameter import Parameter
+    from torchtree.evolution.alignment import Alignment, Sequence
+    from torchtree.evolution.datatype import NucleotideDataType
+    from torchtree.evolution.site_model import ConstantSiteModel
+    from torchtree.evolution.site_pattern import SitePattern
+    from torchtree.evolution.substitution_model.nucleotide import JC69
+    from torchtree.evolution.taxa import Taxa, Taxon
+    from torchtree.evolution.tree_likelihood import TreeLikelihoodModel
+    from torchtree.evolution.tree_model import UnRootedTreeModel, parse_tree
+    import sys
+    sys.setrecursionlimit(20000)
+    names = ["t%d" % i for i in range(T)]
+    taxa = Taxa("taxa", [Taxon(n, {}) for n in names])
+    seqs = ["".join(c(i) for c in columns) for i in range(T)]
+    aln = Alignment("a", [Sequence(n, s_) for n, s_ in zip(names, seqs)], taxa, NucleotideDataType(None))
+    if shape == "caterpillar":
+        nw = names[0]
+        for n in names[1:]:
+            nw = "(%s,%s)" % (nw, n)
+    else:
+        level = list(names)
+        while len(level) > 1:
+            level = ["(%s,%s)" % (level[i], level[i + 1]) if i + 1 < len(level) else level[i] for i in range(0, len(level), 2)]
+        nw = level[0]
+    tree = parse_tree(taxa, {"newick": nw + ";"})
+    tm = UnRootedTreeModel("t", tree, taxa, Parameter("bl", torch.full((2 * T - 3,), float(bl), dtype=torch.float64)))
+    m = TreeLikelihoodModel("like", SitePattern("sp", aln), tm, JC69("jc"), ConstantSiteModel("sm"), use_tip_states=use_tip_states)
+    m.rescale = rescale
+    return m
+
+
+SHAPED = {
+    # name: (tree shape, taxa, columns, branch length): the plain pass underflows on the alternating column
+    "balanced[T=256,bl=5e-4]": ("balanced", 256, [lambda i: "ACGT"[i % 4]], 5e-4),
+    "balanced[T=128,bl=5e-4,slow+fast columns]": ("balanced", 128, [lambda i: "ACGT"[i % 4], lambda i: "A", lambda i: "ACGT"[(i // 2) % 4]], 5e-4),
+    "caterpillar[T=900,bl=0.05,slow+fast columns]": ("caterpillar", 900, [lambda i: "A", lambda i: "ACGT"[i % 4], lambda i: "ACGT"[(i * 7) % 4]], 0.05),
+    "balanced[T=1024,bl=0.08,slow+fast columns]": ("balanced", 1024, [lambda i: "A", lambda i: "ACGT"[(i * 5 + i // 3) % 4]], 0.08),
+}
+
+
+def ob_switch_shaped(name, use_tip_states):
+    """the switching evaluation on tree shapes / alignments where (a) both root subtrees are far below 1 but above any reasonable threshold
+    and their product underflows, (b) a slowly decaying (constant) column sits next to columns that underflow: first and second evaluation
+    finite and equal (1e-8) to the always-rescaled evaluation"""
+    def body():
+        shape, T, cols, bl = SHAPED[name]
+        torch.set_num_threads(1)
+        m = _shaped_model(shape, T, cols, bl, False, use_tip_states)
+        plain = tl_plain(m)
+        if not bool(torch.isinf(plain).any()):
+            raise Undecided("scenario %s does not underflow in the plain pass: %s" % (name, plain.tolist()))
+        ref = float(_shaped_model(shape, T, cols, bl, True, use_tip_states)._call().reshape(-1)[0])
+        bad = []
+        for which in ("first (switching)", "second"):
+            try:
+                x = float(m._call().reshape(-1)[0])
+            except Exception as e:
+                bad.append({"evaluation": which, "raised": "%s: %s" % (type(e).__name__, str(e)[:120])})
+                break
+            if not (x == x and abs(x) != float("inf")) or abs(x - ref) > 1e-8 * abs(ref):
+                bad.append({"evaluation": which, "returned": x, "reference": ref})
+        if bad:
+            raise Refuted("switch to rescaling on %s (tip_states=%s): %s" % (name, use_tip_states, bad), witness={"scenario": name, "bad": bad},
+                          replay={"kind": "custom", "contract": "C03", "func": "replay_switch_shaped", "args": {"name": name, "tip_states": use_tip_states}}, confirmed=True)
+        return {"backend": "concrete", "cases": 2, "statement": "%s: switching and next evaluation finite and equal to the rescaled reference %.6f" % (name, ref)}
+    return Ob("C03.switch.%s[tip_states=%s]" % (name, use_tip_states), "B", body, clause="finite whenever the true value is finite (real underflow, bounded)", funcs=FUNCS, timeout=900)
+
+
+def replay_switch_shaped(args):
+    try:
+        ob_switch_shaped(args["name"], args["tip_states"]).fn()
+    except Refuted as e:
+        return False, e.detail
+    return True, "held"
+
+
 def replay_switch(args):
     try:
         ob_switch(args["tip_states"], args["which"]).fn()
@@ -607,6 +687,11 @@ def obligations(tier, seed):
                 add("C03.equiv.states_rescaled[tree=%s,S=2,K=2]" % ts, ("states", ts, 2, 2, (), cols), "rescaled ≡ plain (tip states)")
             if k % 4 == 0:
                 add("C03.equiv.rescaled[tree=%s,S=2,K=1,batch=(2,)]" % ts, ("partials", ts, 2, 1, (2,), 1), "rescaled ≡ plain (batched)")
+                if T <= 4:
+                    # sample shape equal to the number of rate categories (axes of equal length can be confused silently)
+                    add("C03.equiv.rescaled[tree=%s,S=2,K=2,batch=(2,)]" % ts, ("partials", ts, 2, 2, (2,), 1), "rescaled ≡ plain (batched, batch size = categories)")
+                    add("C03.equiv.states_rescaled[tree=%s,S=2,K=2,batch=(2,)]" % ts, ("states", ts, 2, 2, (2,), [[i % 2, (i + 1) % 3] for i in range(T)]),
+                        "rescaled ≡ plain (tip states, batched, batch size = categories)")
     cut_shapes = [(2, 2, 2)] if tier == "quick" else [(2, 2, 2), (4, 1, 1), (3, 2, 1), (2, 3, 2)]
     for variant in ("partials", "states"):
         for lk in ("tip", "internal"):
@@ -625,5 +710,8 @@ def obligations(tier, seed):
     for which in ("single", "all_underflow", "mixed", "mixed_reversed", "none"):
         for ts in (False, True):
             obs.append(ob_switch(ts, which))
+    for name in SHAPED:
+        for ts in (False, True):
+            obs.append(ob_switch_shaped(name, ts))
     obs.append(ob_guard())
     return obs
